@@ -12,16 +12,19 @@
 (*           after the process died and a new one took over | on another process while the first is   *)
 (*           alive (only where the server detaches prepared branches, >= 8.0.29)                       *)
 (*   ver     server version: prepared branch attached to its connection (8.0.28) | detached (8.0.30)  *)
-(*   reuse   the pooled connection has served a complete XA transaction before                        *)
+(*   reuse   1: the pooled connection has served a complete XA transaction before;                    *)
+(*           2: another global transaction runs its phase one on the pool between this branch's       *)
+(*              phase one and its phase two (its own statements are not part of the trace)            *)
 EXTENDS Integers, Sequences, TLC, IOUtils
 
 Scen == {s \in [kind : {"ins", "upd", "del", "sel"}, mode : {"auto", "explicit"}, reg : {"ok", "fail", "neterr"},
                failAt : 0..8, p2 : {"commit", "rollback"}, how : {"once", "dup", "retry", "restart", "other"},
-               ver : {"8.0.28", "8.0.30"}, reuse : {0, 1}] :
+               ver : {"8.0.28", "8.0.30"}, reuse : {0, 1, 2}] :
            /\ s.reg # "ok" => (s.failAt = 0 /\ s.p2 = "rollback" /\ s.how = "once" /\ s.reuse = 0)
            /\ s.how = "other" => s.ver = "8.0.30"
            /\ s.failAt >= 5 => s.how = "once"
-           /\ s.reuse = 1 => (s.how = "once" /\ s.failAt \in {0, 2})}
+           /\ s.reuse = 1 => (s.how = "once" /\ s.failAt \in {0, 2})
+           /\ s.reuse = 2 => (s.how \in {"once", "dup"} /\ s.failAt = 0)}
 
 VARIABLE sc
 GenInit == sc \in Scen
